@@ -233,6 +233,14 @@ func extractOffsets(repo, root string) error {
 	fmt.Fprintf(&b, "def mergeSortFields : List String := %s\n\n", q(sortFields))
 	b.WriteString("/-- fields Split copies into each single-partition request (sorted) -/\n")
 	fmt.Fprintf(&b, "def splitRequestFields : List String := %s\ndef splitInnerFields : List String := %s\n\n", q(splitReqFields), q(splitPartFields))
+	tree, err := seekTree(repo)
+	if err != nil {
+		return err
+	}
+	b.WriteString("/-- outcome of Seek: the connection offset afterwards and the value returned, or the kind of error -/\n")
+	b.WriteString("inductive SeekOut where\n  | ok (newOffset returned : Int) | badWhence | outOfRange | readError\n  deriving DecidableEq, Repr, Inhabited\n\n")
+	b.WriteString("/-- conn.go (*Conn).Seek executed symbolically, path by path: `cur` = c.offset before, `whence` with the\nSeekDontCheck flag cleared, `dc` = that flag, `offsets` = result of ReadOffsets (`none` = error) -/\n")
+	fmt.Fprintf(&b, "def seekSrc (cur offset whence : Int) (dc : Bool) (offsets : Option (Int × Int)) : SeekOut :=\n  %s\n\n", tree)
 	b.WriteString("end KV.Gen.Offsets\n")
 	return os.WriteFile(filepath.Join(root, "lean", "KafkaVerif", "Gen", "Offsets.lean"), []byte(b.String()), 0o644)
 }
